@@ -981,6 +981,7 @@ func (g *VCGen) symDiv(x *ssa.BinOp, l, r SpecVal, unsigned bool) {
 		g.so.done[key] = true
 		a, b := l.T, r.T
 		facts := []string{
+			fmt.Sprintf("(=> (not (= %s 0)) (= %s (+ %s %s)))", b, a, mulTerm(b, q), m),
 			fmt.Sprintf("(=> (and (> %s 0) (<= 0 %s) (< %s %s)) (and (= %s 0) (= %s %s)))", b, a, a, b, q, m, a),
 			fmt.Sprintf("(=> (and (> %s 0) (<= %s %s) (< %s (* 2 %s))) (and (= %s 1) (= %s (- %s %s))))", b, b, a, a, b, q, m, a, b),
 			fmt.Sprintf("(=> (and (> %s 0) (>= %s 0)) (and (<= 0 %s) (< %s %s) (<= 0 %s) (<= %s %s)))", b, a, m, m, b, q, q, a),
